@@ -11,6 +11,7 @@ import (
 
 	"github.com/256dpi/gomqtt/packet"
 	"github.com/256dpi/gomqtt/transport"
+	"github.com/gorilla/websocket"
 
 	"verif/sim/core"
 	"verif/sim/rt"
@@ -41,6 +42,7 @@ func genC19(seed uint64) *core.Plan {
 	p.SetKnob("closeat", r.Pick(-1, r.Intn(12), r.Intn(40)))
 	p.SetKnob("timeout", r.Pick(0, 0, 0, 20, 100))
 	p.SetKnob("peerpkts", r.Pick(0, 1, 3))
+	p.SetKnob("ws", r.Pick(0, 0, 1)) // carrier: TCP-like or WebSocket (gorilla over the simulated link)
 	total := 0
 	for s := 1; s <= senders && total < 60; s++ {
 		n := r.Range(1, 6)
@@ -125,6 +127,8 @@ func runC19(t *testing.T, p *core.Plan) *core.Result {
 	closeAt := p.Knob("closeat", -1)
 	timeout := time.Duration(p.Knob("timeout", 0)) * time.Millisecond
 	faultOp, faultN := faultOps[p.Knob("faultop", 0)], p.Knob("faultn", 0)
+	ws := p.Knob("ws", 0) == 1
+	var wsBytes []byte
 
 	// per-sender work lists; every packet is a publish-like packet carrying a tag
 	work := make([][]core.Item, nS+1)
@@ -156,6 +160,27 @@ func runC19(t *testing.T, p *core.Plan) *core.Result {
 		link := simnet.NewLink(1)
 		link.A2B.Record = true
 		var calls [5]int
+		var wsA, wsB *websocket.Conn
+		if ws {
+			var err error
+			wsA, wsB, err = wsPair(link, pumpAll(link))
+			if err != nil {
+				res.Violate("C19", "C19.ws-handshake", "failed", err.Error())
+				return
+			}
+			// the peer's reader: concatenated binary message payloads are the MQTT stream
+			go func() {
+				for {
+					mt, data, err := wsB.ReadMessage()
+					if err != nil {
+						return
+					}
+					if mt == websocket.BinaryMessage {
+						wsBytes = append(wsBytes, data...)
+					}
+				}
+			}()
+		}
 		link.A.OnCall = func(op string, n, _ int) {
 			hmu.Lock()
 			for i, o := range faultOps {
@@ -178,7 +203,10 @@ func runC19(t *testing.T, p *core.Plan) *core.Result {
 			}
 			return nil
 		}
-		a := transport.NewNetConn(link.A)
+		var a transport.Conn = transport.NewNetConn(link.A)
+		if ws {
+			a = transport.NewWebSocketConn(wsA)
+		}
 		a.SetMaxWriteDelay(flush)
 		if timeout > 0 {
 			a.SetReadTimeout(timeout)
@@ -265,6 +293,9 @@ func runC19(t *testing.T, p *core.Plan) *core.Result {
 			}
 			if link.B2A.InFlight() > 0 {
 				acts, w = append(acts, "deliver"), append(w, 4)
+			}
+			if ws && link.A2B.InFlight() > 0 {
+				acts, w = append(acts, "deliver-out"), append(w, 3)
 			}
 			if rt.NextWake() != 0 && (rem == 0 || sched.Chance(1, 3)) {
 				acts, w = append(acts, "timer"), append(w, 3)
@@ -395,7 +426,26 @@ func runC19(t *testing.T, p *core.Plan) *core.Result {
 		if !isDone(cdone) {
 			res.Violate("C19", "C19.blocked", "close", "Close is still blocked after one virtual hour")
 		}
-		wire = append([]byte{}, link.A2B.Wire...)
+		if ws {
+			// drain what the connection wrote towards the peer
+			for i := 0; i < 1000; i++ {
+				syncWait()
+				if n := link.A2B.InFlight(); n > 0 {
+					link.A2B.Deliver(n)
+					continue
+				}
+				if link.A2B.FinPending() {
+					link.A2B.DeliverFIN()
+					continue
+				}
+				break
+			}
+			syncWait()
+			wire = append([]byte{}, wsBytes...)
+			wireAtCarrierClose = -1
+		} else {
+			wire = append([]byte{}, link.A2B.Wire...)
+		}
 		for i, o := range faultOps {
 			if o != "" {
 				res.Count("calls_"+o, int64(calls[i]))
@@ -574,6 +624,9 @@ func runC19(t *testing.T, p *core.Plan) *core.Result {
 	}
 	if faultFired {
 		res.Count("fault_"+faultOp, 1)
+	}
+	if ws {
+		res.Count("websocket_runs", 1)
 	}
 	_ = faultAt
 	if closeReturnedAt >= 0 {
